@@ -718,7 +718,18 @@ func gen(r *rand.Rand, tier string, emit func(core.Case)) {
 	for i := 0; i < 10*mul; i++ {
 		emit(genBadOps(r))
 	}
-	genE2E(r, tier, emit)
+	for i := 0; i < 30*mul; i++ {
+		emit(genV2(r, "v2-sync"))
+	}
+	for i := 0; i < 40*mul; i++ {
+		emit(genV2(r, "v2-soup"))
+	}
+	for i := 0; i < 6*mul; i++ {
+		emit(genV2(r, "v2-byz"))
+	}
+	for i := 0; i < 4*mul; i++ {
+		emit(genV2(r, "v2-ih"))
+	}
 }
 
 // ---------------------------------------------------------------------------------------------
@@ -787,8 +798,8 @@ func fullyValid(set []pv, sigs string) bool {
 }
 
 func oracle(c core.Case, out []string) []core.Finding {
-	if len(c.Ops) > 0 && strings.HasPrefix(c.Ops[0], "e2e ") {
-		return oracleE2E(c, out)
+	if len(c.Ops) > 0 && strings.HasPrefix(c.Ops[0], "v2") {
+		return oracleV2(c, out)
 	}
 	var fs []core.Finding
 	var set0 []pv
@@ -911,51 +922,10 @@ func oracle(c core.Case, out []string) []core.Finding {
 			}
 		case "store":
 			lastStore = out[i]
-			mm := kv("x " + out[i])
-			if mm["blocks"] == "" || mm["blocks"] == "-" {
-				continue
-			}
-			// the node's own state, re-derived: sets shift as updateState prescribes
-			last, cur, next := []pv(nil), set0, set0
-			prevID := "0/0"
-			for k, e := range strings.Split(mm["blocks"], ";") {
-				p := strings.Split(e, ":")
-				h := ih + int64(k)
-				if len(p) != 4 {
-					fs = append(fs, core.Finding{Fingerprint: "v0.store.block-or-seen-commit-missing", Desc: "stored height without block or seen commit: " + e})
-					break
-				}
-				if p[0] != strconv.FormatInt(h, 10) {
-					fs = append(fs, core.Finding{Fingerprint: "v0.store.heights-not-contiguous", Desc: out[i]})
-				}
-				if p[1] != p[2] {
-					fs = append(fs, core.Finding{Fingerprint: "v0.saved.seen-commit-for-other-block",
-						Desc: fmt.Sprintf("height %s: stored block %s but its seen commit is for %s", p[0], p[1], p[2])})
-				}
-				if !quorum(cur, p[3]) {
-					fs = append(fs, core.Finding{Fingerprint: "v0.saved.without-two-thirds",
-						Desc: fmt.Sprintf("height %s: block %s stored with seen commit %s, which does not carry valid signatures of >2/3 of the validator set the node's state prescribes for that height (%v)", p[0], p[1], p[3], cur)})
-				}
-				t, known := offered[p[1]]
-				okLC := false
-				if known {
-					if h == ih {
-						okLC = t.lcSigs == "-"
-					} else {
-						okLC = t.lcH == strconv.FormatInt(h-1, 10) && t.lcID == prevID && quorum(last, t.lcSigs) && fullyValid(last, t.lcSigs)
-					}
-				}
-				if !known || t.flaw || !okLC || t.prev != prevID || t.h != h {
-					fs = append(fs, core.Finding{Fingerprint: "v0.saved.block-fails-validation",
-						Desc: fmt.Sprintf("height %s: stored block %s does not pass validation on its predecessor %s (%+v)", p[0], p[1], prevID, t)})
-				}
-				prevID = p[1]
-				tipSet, tipSigs = cur, p[3]
-				nn := next
-				if known && t.nv != "-" && t.nv != "" {
-					nn = parseSet(t.nv)
-				}
-				last, cur, next = cur, next, nn
+			sf, ts, tg := checkStore("v0", out[i], set0, ih, offered)
+			fs = append(fs, sf...)
+			if tg != "" {
+				tipSet, tipSigs = ts, tg
 			}
 		case "handover":
 			if strings.HasPrefix(out[i], "panic-") {
@@ -979,6 +949,57 @@ func oracle(c core.Case, out []string) []core.Finding {
 	return fs
 }
 
+// checkStore walks a store line: the node's own state is re-derived (sets shift as updateState
+// prescribes) and every stored block is judged against it.
+func checkStore(px, line string, set0 []pv, ih int64, offered map[string]told) (fs []core.Finding, tipSet []pv, tipSigs string) {
+	mm := kv("x " + line)
+	if mm["blocks"] == "" || mm["blocks"] == "-" {
+		return
+	}
+	last, cur, next := []pv(nil), set0, set0
+	prevID := "0/0"
+	for k, e := range strings.Split(mm["blocks"], ";") {
+		p := strings.Split(e, ":")
+		h := ih + int64(k)
+		if len(p) != 4 {
+			fs = append(fs, core.Finding{Fingerprint: px + ".store.block-or-seen-commit-missing", Desc: "stored height without block or seen commit: " + e})
+			break
+		}
+		if p[0] != strconv.FormatInt(h, 10) {
+			fs = append(fs, core.Finding{Fingerprint: px + ".store.heights-not-contiguous", Desc: line})
+		}
+		if p[1] != p[2] {
+			fs = append(fs, core.Finding{Fingerprint: px + ".saved.seen-commit-for-other-block",
+				Desc: fmt.Sprintf("height %s: stored block %s but its seen commit is for %s", p[0], p[1], p[2])})
+		}
+		if !quorum(cur, p[3]) {
+			fs = append(fs, core.Finding{Fingerprint: px + ".saved.without-two-thirds",
+				Desc: fmt.Sprintf("height %s: block %s stored with seen commit %s, which does not carry valid signatures of >2/3 of the validator set the node's state prescribes for that height (%v)", p[0], p[1], p[3], cur)})
+		}
+		t, known := offered[p[1]]
+		okLC := false
+		if known {
+			if h == ih {
+				okLC = t.lcSigs == "-"
+			} else {
+				okLC = t.lcH == strconv.FormatInt(h-1, 10) && t.lcID == prevID && quorum(last, t.lcSigs) && fullyValid(last, t.lcSigs)
+			}
+		}
+		if !known || t.flaw || !okLC || t.prev != prevID || t.h != h {
+			fs = append(fs, core.Finding{Fingerprint: px + ".saved.block-fails-validation",
+				Desc: fmt.Sprintf("height %s: stored block %s does not pass validation on its predecessor %s (%+v)", p[0], p[1], prevID, t)})
+		}
+		prevID = p[1]
+		tipSet, tipSigs = cur, p[3]
+		nn := next
+		if known && t.nv != "-" && t.nv != "" {
+			nn = parseSet(t.nv)
+		}
+		last, cur, next = cur, next, nn
+	}
+	return
+}
+
 func handoverFinding(outLine, where string, tipSet []pv, tipSigs string) core.Finding {
 	outTok := strings.Fields(outLine)[0]
 	kind := strings.TrimPrefix(outTok, "panic-")
@@ -997,11 +1018,11 @@ func nonTrivial(c core.Case, out []string) bool {
 		if o == "added" {
 			added = true
 		}
-		if strings.HasPrefix(o, "saved=") || strings.HasPrefix(o, "e2e ") {
+		if strings.HasPrefix(o, "saved=") || strings.HasPrefix(o, "processed ") || strings.HasPrefix(o, "failure ") {
 			proc = true
 		}
 	}
-	return (added && proc) || (len(out) > 0 && strings.HasPrefix(out[0], "e2e "))
+	return (added && proc) || (proc && len(c.Ops) > 0 && strings.HasPrefix(c.Ops[0], "v2"))
 }
 
 func extra() map[string]interface{} {
